@@ -574,8 +574,15 @@ class ResourceScenario(ScenarioData):
         # Working hours are defined in local time, but slots are in UTC
         resource_tz = self.property.get("timezone", self.scenarioIdx)
 
-        # Check if resource has a shift reference
+        # Check if resource has a shift reference.  A shift inherited from an enclosing
+        # group does not override working hours the resource declares itself.
         shift = self.property.get("shifts", self.scenarioIdx)
+        if (
+            shift
+            and not self.property.provided("shifts", self.scenarioIdx)
+            and self.property.provided("workinghours", self.scenarioIdx)
+        ):
+            shift = None
         if shift:
             # Leaves declared on the shift apply to everybody working that shift
             for leave in shift.get("leaves", self.scenarioIdx) or []:
